@@ -361,3 +361,7 @@ mod tests {
         ));
     }
 }
+
+#[cfg(feature = "pendulum_project_ntpd_rs_verif")]
+#[path = "/verif/hooks/ntpd/daemon_sock_source.rs"]
+pub mod vh_daemon_sock_source;
